@@ -102,6 +102,8 @@ type PageGeom struct {
 	MT, MR, MB, ML float64
 	ContentBottom  float64
 	MaxLineBottom  float64
+	MaxBlockBottom float64
+	FootnoteTop    float64
 	FirstWord      string
 	PageType       string
 }
